@@ -401,6 +401,18 @@ def run(tier, fx=None, ck=None, control=False):
                                "b, m, z, and the order changes with the order of the host's supplies" % (lb, PM))
     ck.anchor(n8 >= 1, pre + "key lists of the pending-module table in the scheduling function (found %d)" % n8)
 
+    # ------------------------------------------------------------ R9 an imported binding that is exported again is read through its import
+    if own:
+        import livebind
+        ck.rule("R9.exported-import-read-through", "every arm that serves a ModuleExportGetter and reads the exporting module's binding also looks at `import_binding` "
+                                                   "(`import { x } from \"./a\"; export { x }` is a live view of a's x, not an empty value slot)", floor=2)
+        for f9, sp9, rv9, ri9 in livebind.export_getter_arms(fx):
+            ck.instance("R9.exported-import-read-through", "%s: ModuleExportGetter arm" % f9.path, F.short_span(sp9), ok=ri9)
+            if not ri9:
+                ck.finding("R9.exported-import-read-through", "R9.exported-import-read-through/%s" % f9.path, F.short_span(sp9),
+                           "`%s` serves an export getter with `binding.value` and never looks at `binding.import_binding`: a binding that is itself an import has an empty "
+                           "value slot, so `import { x } from \"./a\"; export { x }` gives downstream importers (and get_export) undefined" % f9.path)
+
     # ------------------------------------------------------------ R3
     ck.rule("R3.canonical-keys", "ImportRequest.resolved_path is the result of ModulePath::resolve; the interpreter never builds a ModulePath from raw text",
             floor=1)
